@@ -98,7 +98,10 @@ def core(x, peaks, troughs, rec):
 
 def check_enum(case, rec):
     x = np.array(case['x'], dtype=float) * (2.0 ** case.get('scale_exp', 0))     # units: the definition is scale free
-    rec.label('scale:%s' % ('1' if not case.get('scale_exp') else ('tiny' if case['scale_exp'] < -20 else 'other')))
+    if case.get('gain'):
+        x = x * case['gain']        # ADC counts times a non-dyadic gain: half-heights that are ties only up to rounding
+    rec.label('scale:%s' % ('1' if not case.get('scale_exp') else ('tiny' if case['scale_exp'] < -20 else 'other')),
+              'gain:%s' % (case.get('gain') or 1))
     core(x, case['peaks'], case['troughs'], rec)
 
 
@@ -157,7 +160,8 @@ def strat_raw(draw, tier):
     start = draw(st.sampled_from(['P', 'T']))
     peaks = [i for j, i in enumerate(idx) if (j % 2 == 0) == (start == 'P')]
     troughs = [i for j, i in enumerate(idx) if (j % 2 == 0) != (start == 'P')]
-    return {'x': x, 'peaks': peaks, 'troughs': troughs, 'scale_exp': draw(st.sampled_from([0, 0, 0, -50, -40, -30, -10, 3, 20]))}
+    return {'x': x, 'peaks': peaks, 'troughs': troughs, 'scale_exp': draw(st.sampled_from([0, 0, 0, -50, -40, -30, -10, 3, 20])),
+            'gain': draw(st.sampled_from([None, None, 0.195, 0.1, 1.0 / 3.0, 0.0061, 7.3]))}
 
 
 @st.composite
@@ -183,7 +187,7 @@ def decode(fdp):
     start_peak = fdp.ConsumeBool()
     peaks = [i for j, i in enumerate(idx) if (j % 2 == 0) == start_peak]
     troughs = [i for j, i in enumerate(idx) if (j % 2 == 0) != start_peak]
-    return {'x': x, 'peaks': peaks, 'troughs': troughs}
+    return {'x': x, 'peaks': peaks, 'troughs': troughs, 'gain': [None, 0.195, 0.1, 1.0 / 3.0][fdp.ConsumeIntInRange(0, 3)]}
 
 
 PARTS = [
